@@ -35,7 +35,7 @@ ANCHORS = [
     "acnportal.acnsim.events.stochastic_events:StochasticEvents._convert_ev_matrix",
     "acnportal.acnsim.models.battery:batt_cap_fn",
 ]
-REQUIRED = ["doc_batches_through_generate_events", "integer_typed_sample_matrices", "doc_evs_judged", "stoch_evs_judged", "fits_judged", "regime:fit-init-above-transition",
+REQUIRED = ["doc_batches_with_zoneinfo_datetimes", "doc_batches_through_generate_events", "integer_typed_sample_matrices", "doc_evs_judged", "stoch_evs_judged", "fits_judged", "regime:fit-init-above-transition",
             "regime:fit-init-below-transition", "regime:max_len-capped", "regime:force_feasible-capped",
             "regime:doc-capacity_fn", "regime:stoch-capacity_fn", "gmm_evs_judged"]
 BUDGET_S = {"quick": 200, "thorough": 2400}
@@ -161,8 +161,48 @@ def _run_docs(case, obs):
                      "disconnectTime": rfc1123(d), "doneChargingTime": None,
                      "kWhDelivered": round(rng.choice([rng.uniform(0.01, 2), rng.uniform(0.01, 80), rng.uniform(0.01, 150)]), 3),
                      "userInputs": None})
+    zi_docs = case["seed"] % 5 == 0
+    FALLBACK = {"America/Los_Angeles": datetime(2019, 11, 3, 9, 0, tzinfo=timezone.utc), "Europe/Berlin": datetime(2019, 10, 27, 1, 0, tzinfo=timezone.utc),
+                "America/New_York": datetime(2019, 11, 3, 6, 0, tzinfo=timezone.utc)}
+    if zi_docs and tzname in FALLBACK and case["bp"] != "fit":
+        # sessions inside the repeated hour of a fall-back night: plugged in at 01:30 (first pass), out at 01:30 (second pass),
+        # and one that connects at the wall time at which the previous one ... i.e. fold twins within one query
+        tr = FALLBACK[tzname]
+        base = tr - timedelta(days=3)
+        start = base.astimezone(pytz.timezone(tzname))
+        end = start + timedelta(days=12)
+        docs = [d_ for d_ in docs if False]
+        for k_, (c_, d_) in enumerate([(tr - timedelta(minutes=30), tr + timedelta(minutes=30)), (tr + timedelta(minutes=30), tr + timedelta(hours=5)),
+                                       (tr - timedelta(hours=2), tr - timedelta(minutes=30)), (tr + timedelta(minutes=45), tr + timedelta(minutes=50))]):
+            docs.append({"_id": f"tw{k_}", "sessionID": f"twin{k_}", "spaceID": f"sp{k_}", "stationID": "x", "siteID": "1", "clusterID": "c", "userID": None,
+                         "timezone": tzname, "connectionTime": rfc1123(c_), "disconnectTime": rfc1123(d_), "doneChargingTime": None,
+                         "kWhDelivered": round(rng.uniform(0.5, 20), 3), "userInputs": None})
+        obs.ev("doc_batches_inside_a_repeated_hour")
     fake = FakeRequests(docs, cap=rng.choice([1000, 7]))
     kw = dict(max_len=case["max_len"], battery_params=bp, force_feasible=case["ff"])
+    RealClient = getattr(ae.DataClient, "_verif_real", ae.DataClient)
+
+    class ZIClient:
+        """The real client, except that the datetimes of the documents it yields carry zoneinfo time zones (what documents look
+        like after a trip through a DataFrame cache): same instants, another tzinfo implementation (wall time + fold)."""
+
+        _verif_real = RealClient
+
+        def __init__(self, *a_, **k_):
+            self._c = RealClient(*a_, **k_)
+
+        def get_sessions_by_time(self, *a_, **k_):
+            import zoneinfo as _zi
+            for doc in self._c.get_sessions_by_time(*a_, **k_):
+                z_ = _zi.ZoneInfo(doc["timezone"])
+                for f_, v_ in list(doc.items()):
+                    if isinstance(v_, datetime):
+                        doc[f_] = v_.astimezone(z_)
+                yield doc
+
+    if zi_docs:
+        ae.DataClient = ZIClient
+        obs.ev("doc_batches_with_zoneinfo_datetimes")
     cfg = dict(period=period, V=V, P=P, max_len=case["max_len"], ff=case["ff"], bp=case["bp"], tz=tzname,
                start=start.isoformat())
     refused = False
@@ -188,6 +228,7 @@ def _run_docs(case, obs):
                 evs = []
             else:
                 raise
+    ae.DataClient = RealClient
     if refused:
         obs.ev("doc_batches_refused_by_fit")
         # a refusal is legitimate only if some document is beyond what the fit can absorb
